@@ -242,7 +242,7 @@ def run_unit(unit, repo_src=None, out_dir=None, extra_args=(), rlimit_mult=None,
             f.origin = g.origin[li] if li < len(g.origin) else None
             if f.origin is None:
                 # nearest original line above, inside the same function
-                k = li
+                k = min(li, len(g.origin) - 1, len(g.owner) - 1)
                 while k >= 0 and (g.origin[k] is None) and g.owner[k] == f.owner: k -= 1
                 if k >= 0 and g.origin[k] is not None and g.owner[k] == f.owner: f.origin = g.origin[k]
         for sp in sec + prim:
